@@ -118,3 +118,50 @@ func c08nofloat(c *core.Ctx) {
 		c.Note(R, "no-float-call", "-", "no float conversion in the OpenAPI packages", "nothing to table")
 	}
 }
+
+// c10aliasin: a schema handed to AddType is not modified by the root that uses it.
+func c10aliasin(R string) RuleFunc {
+	return func(c *core.Ctx) {
+		c.Rule(R, "a schema object registered as a user type stays what it was: either JSchema.AddType stores a copy of the type's model (not the argument's own `Inner`), or the compile phase of the root never writes into the models of registered types. Today both halves are checked structurally: (in) the second argument of ISchema.AddNamedType in AddType is a field of the argument object (`typ.Inner`, stored by reference); (mut) allOfConstraintCompiler.processType hands the model returned by rootSchema.MustType(name) to processSchema, whose extendWith adds inherited children to it and deletes its allOf rule in place. With both true, compiling one root rewrites a type object that other roots (and the caller) still hold")
+		c.Floor(R, 1)
+		d := c.P.FindDecl("(*notations/jschema.JSchema).AddType")
+		p := c.P.FindDecl("(*notations/jschema/loader.allOfConstraintCompiler).processType")
+		if d == nil || p == nil {
+			c.Unresolved(R, "JSchema.AddType / allOfConstraintCompiler.processType")
+			return
+		}
+		aliasIn := ""
+		ast.Inspect(d.Decl.Body, func(n ast.Node) bool {
+			call, ok := n.(*ast.CallExpr)
+			if !ok || !strings.HasSuffix(core.ExprStr(call.Fun), ".AddNamedType") || len(call.Args) < 2 {
+				return true
+			}
+			a := core.ExprStr(call.Args[1])
+			if a == "typ.Inner" {
+				aliasIn = c.P.Pos(call.Pos())
+			}
+			return true
+		})
+		mutates := false
+		typVar := ""
+		ast.Inspect(p.Decl.Body, func(n ast.Node) bool {
+			switch x := n.(type) {
+			case *ast.AssignStmt:
+				if len(x.Rhs) == 1 && strings.Contains(core.ExprStr(x.Rhs[0]), ".MustType(") && len(x.Lhs) == 1 {
+					typVar = core.ExprStr(x.Lhs[0])
+				}
+			case *ast.CallExpr:
+				if strings.HasSuffix(core.ExprStr(x.Fun), ".processSchema") && len(x.Args) == 1 && typVar != "" && core.ExprStr(x.Args[0]) == typVar {
+					mutates = true
+				}
+			}
+			return true
+		})
+		pos := c.P.Pos(d.Decl.Pos())
+		if aliasIn != "" {
+			pos = aliasIn
+		}
+		c.Check(!(aliasIn != "" && mutates), R, "AddType:typ.Inner", pos, "a registered type's model is copied on registration or never written by the root's compile phase",
+			"the type's own model is stored by reference and the allOf compiler rewrites it in place: after a root that uses the type has been compiled, the type object shows the merged properties (its own Example() changes), a second root using the same type object with a different @base gets the first root's properties, a failed merge leaves it half extended (later `Duplicate key`), and concurrent Check() of two roots sharing the type races")
+	}
+}
